@@ -468,7 +468,7 @@ def run_wait(case, st):
         if ts is None and t < TIMEOUT - 0.01:
             st.violation("C15:wait:gives-up-before-the-timeout", rc, f"None only at the time-out ({TIMEOUT})", f"None at t={t} events={events}"[:300])
             return
-        if before and not during and ts is not None and ts in before:
+        if before and not during and ts is not None and ts in before and t < TIMEOUT:
             # the delivery started before the reader waited but its critical section may still have followed: allowed
             st.outcome("frame straddling the start of the wait")
             return
